@@ -42,10 +42,25 @@ struct SimPair
   f(char*, p, FIELD_NORMAL, ##__VA_ARGS__) g()                                 \
   f(short, s, FIELD_NORMAL, ##__VA_ARGS__) g()                                 \
   f(unsigned long, u, FIELD_NORMAL, ##__VA_ARGS__) g()
-#define sandbox_fields_reflection_invlib_allClasses(f, ...) f(SimPair, invlib, ##__VA_ARGS__)
+// a struct whose guest image has the same size and alignment as the host struct, but not the same layout
+struct SimPair3
+{
+  char* p;
+  long long x;
+  long a;
+  int pad_to_guest_size[2];
+};
+#define sandbox_fields_reflection_invlib_class_SimPair3(f, g, ...)             \
+  f(char*, p, FIELD_NORMAL, ##__VA_ARGS__) g()                                 \
+  f(long long, x, FIELD_NORMAL, ##__VA_ARGS__) g()                             \
+  f(long, a, FIELD_NORMAL, ##__VA_ARGS__) g()                                  \
+  f(int[2], pad_to_guest_size, FIELD_NORMAL, ##__VA_ARGS__) g()
+#define sandbox_fields_reflection_invlib_allClasses(f, ...) f(SimPair, invlib, ##__VA_ARGS__) f(SimPair3, invlib, ##__VA_ARGS__)
 rlbox_load_structs_from_library(invlib);
 using GPair = rlbox::Sbx_invlib_SimPair<Sbx>;
 static_assert(sizeof(GPair) == 16);
+using GPair3 = rlbox::Sbx_invlib_SimPair3<Sbx>;
+static_assert(sizeof(GPair3) == sizeof(SimPair3) && alignof(GPair3) == alignof(SimPair3));
 
 // application-side view of the library's interface (never defined for the sim backend)
 extern "C" {
@@ -55,6 +70,7 @@ Color f_enum(Color c, bool b);
 char* f_ptrs(char* p, int* q, void* v);
 int f_fn(long (*cb)(long, unsigned), void (*gf)(void));
 long f_struct(SimPair pr);
+long f_struct3(SimPair3 pr);
 SimPair f_ret_struct(long a);
 void f_void(void);
 unsigned long f_many(int a0, int a1, int a2, int a3, int a4, int a5, int a6, int a7, int a8, int a9, int a10, unsigned a11);
@@ -66,8 +82,18 @@ bool f_rb(bool v);
 float f_rf(float v);
 typedef void (*fnret_t)(void);
 fnret_t f_fnret(void (*gf)(void));
+unsigned long f_callc(unsigned long (*cb)(char, bool, long long, float, Color, unsigned short, void (*)(void), long),
+                      char c,
+                      bool b,
+                      long long ll,
+                      float f,
+                      Color e,
+                      unsigned short us,
+                      void (*fp)(void),
+                      long l);
 // real C library (noop static / dylib)
 int g_lib_id(void);
+int g_lib_id_indirect(void);
 long g_add3(long a, int b, unsigned short c);
 }
 
@@ -89,10 +115,12 @@ enum FnId
   FN_RB,
   FN_RF,
   FN_FNRET,
+  FN_CALLC,
+  FN_STRUCT3,
   FN_COUNT
 };
 static const char* kFnName[] = { "f_ints", "f_fp", "f_enum", "f_ptrs", "f_fn", "f_struct", "f_ret_struct", "f_void", "f_many", "f_u",
-                                 "f_rs", "f_ruc", "f_rll", "f_rb", "f_rf", "f_fnret" };
+                                 "f_rs", "f_ruc", "f_rll", "f_rb", "f_rf", "f_fnret", "f_callc", "f_struct3" };
 
 struct GuestRec
 {
@@ -100,6 +128,9 @@ struct GuestRec
   std::vector<uint64_t> args; // raw bits as the guest saw them
 };
 static std::vector<GuestRec> g_glog;
+static bool g_callc_override, g_callc_returned;
+static uint32_t g_callc_fp, g_callc_guest_got;
+static int32_t g_callc_l;
 static uint64_t g_result_bits; // what the guest returns (interpreted per function)
 static void grec(int fn, int lib, std::vector<uint64_t> args)
 {
@@ -153,6 +184,11 @@ struct G
   static int32_t st(GPair pr)
   {
     grec(FN_STRUCT, LIB, { (uint64_t)(int64_t)pr.a, pr.p, (uint64_t)(int64_t)pr.s, pr.u });
+    return (int32_t)g_result_bits;
+  }
+  static int32_t st3(GPair3 pr)
+  {
+    grec(FN_STRUCT3, LIB, { pr.p, (uint64_t)pr.x, (uint64_t)(int64_t)pr.a, (uint64_t)(int64_t)pr.pad_to_guest_size[0], (uint64_t)(int64_t)pr.pad_to_guest_size[1] });
     return (int32_t)g_result_bits;
   }
   static GPair ret_st(int32_t a)
@@ -209,6 +245,20 @@ struct G
     grec(FN_RB, LIB, { (uint64_t)v });
     return (g_result_bits & 1) != 0;
   }
+  // calls the callback it is given with what it received, except that the last two arguments (function index, long)
+  // are replaced by the guest's own choice when g_callc_override is set
+  static uint32_t callc(uint32_t cb, char c, bool b, int64_t ll, float f, Color e, uint16_t us, uint32_t fp, int32_t l)
+  {
+    grec(FN_CALLC, LIB, { cb, (uint64_t)(int64_t)c, (uint64_t)b, (uint64_t)ll, fbits(f), (uint64_t)(int64_t)(int)e, us, fp, (uint64_t)(int64_t)l });
+    if (g_callc_override) {
+      fp = g_callc_fp;
+      l = g_callc_l;
+    }
+    uint32_t r = Sbx::guest_call<uint32_t, char, bool, int64_t, float, Color, uint16_t, uint32_t, int32_t>(cb, c, b, ll, f, e, us, fp, l);
+    g_callc_guest_got = r;
+    g_callc_returned = true;
+    return r;
+  }
   static uint32_t fnret(uint32_t gf)
   {
     grec(FN_FNRET, LIB, { gf });
@@ -233,7 +283,8 @@ static std::vector<Sym> make_lib()
                          { "f_many", (void*)&G<LIB>::many },     { "f_u", (void*)&G<LIB>::u },
                          { "f_rs", (void*)&G<LIB>::rs },         { "f_ruc", (void*)&G<LIB>::ruc },
                          { "f_rll", (void*)&G<LIB>::rll },       { "f_rb", (void*)&G<LIB>::rb },
-                         { "f_rf", (void*)&G<LIB>::rf },         { "f_fnret", (void*)&G<LIB>::fnret } };
+                         { "f_rf", (void*)&G<LIB>::rf },         { "f_fnret", (void*)&G<LIB>::fnret },
+                         { "f_callc", (void*)&G<LIB>::callc },   { "f_struct3", (void*)&G<LIB>::st3 } };
   if (LIB == 1)
     std::reverse(v.begin(), v.end()); // same names, different table indices
   return v;
@@ -242,6 +293,45 @@ static std::vector<Sym> make_lib()
 static rlbox::tainted<long, Sbx> app_cb(Sandbox&, rlbox::tainted<long, Sbx> a, rlbox::tainted<unsigned, Sbx>)
 {
   return a;
+}
+
+// a callback whose parameters cover the remaining scalar kinds, a function pointer and a long; unsigned long result
+struct CbCRec
+{
+  void* sandbox;
+  char c;
+  bool b;
+  long long ll;
+  uint32_t fbits;
+  int e;
+  unsigned short us;
+  uint64_t fp_rep;
+  bool fp_null;
+  long l;
+};
+static std::vector<CbCRec> g_cbc_log;
+static unsigned long g_cbc_ret;
+static rlbox::tainted<unsigned long, Sbx> app_cbC(Sandbox& sb,
+                                                  rlbox::tainted<char, Sbx> c,
+                                                  rlbox::tainted<bool, Sbx> b,
+                                                  rlbox::tainted<long long, Sbx> ll,
+                                                  rlbox::tainted<float, Sbx> f,
+                                                  rlbox::tainted<Color, Sbx> e,
+                                                  rlbox::tainted<unsigned short, Sbx> us,
+                                                  rlbox::tainted<void (*)(void), Sbx> fp,
+                                                  rlbox::tainted<long, Sbx> l)
+{
+  g_cbc_log.push_back(CbCRec{ &sb,
+                              c.UNSAFE_unverified(),
+                              b.UNSAFE_unverified(),
+                              ll.UNSAFE_unverified(),
+                              (uint32_t)fbits(f.UNSAFE_unverified()),
+                              (int)e.UNSAFE_unverified(),
+                              us.UNSAFE_unverified(),
+                              (uint64_t)fp.UNSAFE_sandboxed(sb),
+                              fp.UNSAFE_unverified() == nullptr,
+                              l.UNSAFE_unverified() });
+  return g_cbc_ret;
 }
 
 enum Kind
@@ -267,11 +357,12 @@ enum Kind
   I_SMALL,
   I_FNRET,
   I_BYNAME,
+  I_CBTYPES,
   K_COUNT
 };
 static const char* kKind[] = { "ints",   "fp",     "enum", "ptrs",    "fn",     "struct",    "ret_struct",   "void",        "many",
                                "u",      "addr",   "destroy", "create", "dylib_invoke", "dylib_destroy", "dylib_create", "noop_invoke", "lookup_fails", "small_types",
-                               "fn_pointer_in_and_out", "lookup_by_transient_name" };
+                               "fn_pointer_in_and_out", "lookup_by_transient_name", "callback_scalar_kinds" };
 static_assert(sizeof(kKind) / sizeof(kKind[0]) == K_COUNT);
 
 typedef __int128 i128;
@@ -310,7 +401,7 @@ struct InvokeWorld : World
     int nsbx = (int)r.range(1, 3);
     p.cfg = { nsbx, r.chance(1, 2) };
     int n = (int)r.range(4, thorough ? 50 : 30);
-    std::vector<unsigned> w = { 10, 4, 4, 6, 8, 5, 5, 4, 4, 8, 8, 3, 4, 6, 2, 3, 2, 5, 9, 6, 6 };
+    std::vector<unsigned> w = { 10, 4, 4, 6, 8, 5, 5, 4, 4, 8, 8, 3, 4, 6, 2, 3, 2, 5, 9, 6, 6, 7 };
     for (auto& x : w)
       if (r.chance(1, 6))
         x = 0;
@@ -318,7 +409,7 @@ struct InvokeWorld : World
       Op o;
       o.kind = (int)r.weighted(w);
       o.a[0] = (int64_t)r.below(8); // sandbox selector
-      o.a[1] = (int64_t)r.below(4); // form
+      o.a[1] = (int64_t)r.below(8); // form
       o.a[2] = (int64_t)(r.next() >> 1); // value seed
       o.a[3] = (int64_t)(r.chance(1, 3) ? (r.next() >> 1) : (uint64_t)pick_int(r, 33, true) & 0x7fffffffffffffffLL); // result bits
       o.a[4] = (int64_t)r.below(FN_COUNT);
@@ -336,6 +427,8 @@ struct InvokeWorld : World
     bool created = false;
     int lib = 0;
     std::unique_ptr<rlbox::sandbox_callback<long (*)(long, unsigned), Sbx>> cb;
+    using CbC = rlbox::sandbox_callback<unsigned long (*)(char, bool, long long, float, Color, unsigned short, void (*)(void), long), Sbx>;
+    std::unique_ptr<CbC> cbc;
     TT<char*> buf = nullptr;
     TT<int*> ibuf = nullptr;
     bool have_addr[FN_COUNT] = {};
@@ -434,7 +527,10 @@ struct InvokeWorld : World
     long long ll = (long long)pick_int(r, 64, true);
     unsigned long ul = (unsigned long)pick_int(r, 64, false);
     size_t z = (size_t)pick_int(r, 64, false);
-    if (r.chance(1, 2)) { // keep most calls representable so that results are exercised too
+    int form = (int)((uint64_t)op.a[1] % 8);
+    if (form > 4)
+      form %= 4;
+    if (r.chance(1, 2) || form == 4) { // keep most calls representable so that results are exercised too
       l = (int)l;
       ul = (unsigned)ul;
       z = (unsigned)z;
@@ -449,10 +545,32 @@ struct InvokeWorld : World
     conv<uint32_t>(e, (i128)z);
     g_result_bits = (uint64_t)op.a[3];
     size_t before = g_glog.size();
-    int form = (int)((uint64_t)op.a[1] % 4);
     long got = 0;
+    if (form == 4) {
+      // the arguments live in sandbox memory (guest layout) and are passed as they are: tainted_volatile operands
+      uint8_t* g = (uint8_t*)m.buf.UNSAFE_unverified();
+      int32_t l32 = (int32_t)l;
+      uint32_t ul32 = (uint32_t)ul, z32 = (uint32_t)z;
+      memcpy(g + 0, &c, 1);
+      memcpy(g + 2, &s, 2);
+      memcpy(g + 4, &i, 4);
+      memcpy(g + 8, &l32, 4);
+      memcpy(g + 16, &ll, 8);
+      memcpy(g + 24, &ul32, 4);
+      memcpy(g + 28, &z32, 4);
+      C->probe("arguments_passed_straight_from_sandbox_memory");
+    }
     Outcome o = attempt([&] {
-      if (form == 0)
+      if (form == 4) {
+        auto pc = m.buf;
+        auto ps = rlbox::sandbox_reinterpret_cast<short*>(m.buf + 2);
+        auto pi = rlbox::sandbox_reinterpret_cast<int*>(m.buf + 4);
+        auto pl = rlbox::sandbox_reinterpret_cast<long*>(m.buf + 8);
+        auto pll = rlbox::sandbox_reinterpret_cast<long long*>(m.buf + 16);
+        auto pul = rlbox::sandbox_reinterpret_cast<unsigned long*>(m.buf + 24);
+        auto pz = rlbox::sandbox_reinterpret_cast<size_t*>(m.buf + 28);
+        got = m.sb->invoke_sandbox_function(f_ints, *pc, *ps, *pi, *pl, *pll, *pul, *pz).UNSAFE_unverified();
+      } else if (form == 0)
         got = m.sb->invoke_sandbox_function(f_ints, c, s, i, l, ll, ul, z).UNSAFE_unverified();
       else if (form == 1)
         got = m.sb->invoke_sandbox_function(f_ints, TT<char>(c), TT<short>(s), TT<int>(i), TT<long>(l), TT<long long>(ll), TT<unsigned long>(ul), TT<size_t>(z)).UNSAFE_unverified();
@@ -557,7 +675,9 @@ struct InvokeWorld : World
   {
     uintptr_t base = (uintptr_t)m.sb->get_sandbox_impl()->mem.base;
     size_t size = m.sb->get_sandbox_impl()->mem.size;
-    int form = (int)((uint64_t)op.a[1] % 4);
+    int form = (int)((uint64_t)op.a[1] % 8);
+    if (form > 4)
+      form %= 4;
     TT<char*> p = m.buf + (int)((uint64_t)op.a[2] % 32);
     TT<int*> q = m.ibuf;
     TT<void*> v = rlbox::sandbox_reinterpret_cast<void*>(m.buf);
@@ -577,6 +697,17 @@ struct InvokeWorld : World
         e.args = { rp, 0, (uint32_t)((uintptr_t)v.UNSAFE_unverified() - base) };
         TT<int*> nq = nullptr;
         got = m.sb->invoke_sandbox_function(f_ptrs, p.to_opaque(), nq, v.to_opaque());
+      } else if (form == 4) {
+        // pointer arguments that live in sandbox memory, holding whatever the guest put there, passed as they are
+        uint32_t r0 = (uint32_t)((uint64_t)op.a[2] >> 8), r1 = (op.a[2] & 64) ? 0 : rq;
+        uint8_t* g = (uint8_t*)m.ibuf.UNSAFE_unverified();
+        memcpy(g, &r0, 4);
+        memcpy(g + 4, &r1, 4);
+        auto c0 = rlbox::sandbox_reinterpret_cast<char**>(m.ibuf);
+        auto c1 = rlbox::sandbox_reinterpret_cast<int**>(m.ibuf + 1);
+        e.args = { r0, r1, 0 };
+        C->probe("arguments_passed_straight_from_sandbox_memory");
+        got = m.sb->invoke_sandbox_function(f_ptrs, *c0, *c1, nullptr);
       } else {
         e.args = { 0, 0, 0 };
         TT<char*> np = nullptr;
@@ -625,8 +756,47 @@ struct InvokeWorld : World
       C->violate("C11", "wrong_result@fn", "result");
   }
 
+  // by-value struct whose guest image is as large as the host struct (but laid out differently)
+  void op_struct3(SbxM& m, const Op& op)
+  {
+    Rng r((uint64_t)op.a[2]);
+    uintptr_t base = (uintptr_t)m.sb->get_sandbox_impl()->mem.base;
+    rlbox::tainted<SimPair3, Sbx> pr;
+    long a = (long)(int)pick_int(r, 32, true);
+    long long x = (long long)pick_int(r, 64, true);
+    int p0 = (int)pick_int(r, 32, true), p1 = (int)pick_int(r, 32, true);
+    bool nullp = r.chance(1, 3);
+    pr.a = a;
+    pr.x = x;
+    pr.pad_to_guest_size[0] = p0;
+    pr.pad_to_guest_size[1] = p1;
+    if (nullp)
+      pr.p = nullptr;
+    else
+      pr.p = m.buf + 5;
+    Expect e;
+    e.args = { nullp ? 0u : (uint32_t)((uintptr_t)m.buf.UNSAFE_unverified() + 5 - base), (uint64_t)x, (uint64_t)(int64_t)a, (uint64_t)(int64_t)p0, (uint64_t)(int64_t)p1 };
+    g_result_bits = (uint64_t)op.a[3];
+    size_t before = g_glog.size();
+    long got = 0;
+    Outcome o = attempt([&] {
+      if (op.a[1] & 1)
+        got = m.sb->invoke_sandbox_function(f_struct3, pr.to_opaque()).UNSAFE_unverified();
+      else
+        got = m.sb->invoke_sandbox_function(f_struct3, pr).UNSAFE_unverified();
+    });
+    C->ev("struct3 -> %s", oname(o));
+    C->probe("struct_argument_with_guest_image_of_host_size");
+    if (judge(m, FN_STRUCT3, o, before, e, "struct") && got != (long)(int32_t)g_result_bits)
+      C->violate("C11", "wrong_result@struct", "result");
+  }
+
   void op_struct(SbxM& m, const Op& op)
   {
+    if (op.a[1] & 2) {
+      op_struct3(m, op);
+      return;
+    }
     Rng r((uint64_t)op.a[2]);
     uintptr_t base = (uintptr_t)m.sb->get_sandbox_impl()->mem.base;
     rlbox::tainted<SimPair, Sbx> pr;
@@ -873,6 +1043,63 @@ struct InvokeWorld : World
     }
   }
 
+  // C12: every scalar kind, a function pointer and a long through a callback; unsigned long result back to the guest
+  void op_cbtypes(SbxM& m, const Op& op)
+  {
+    if (!m.cbc)
+      return;
+    Rng r((uint64_t)op.a[2]);
+    char cv = (char)pick_int(r, 8, true);
+    bool bv = r.chance(1, 2);
+    long long llv = (long long)pick_int(r, 64, true);
+    static const uint32_t fb[] = { 0, 0x80000000u, 0x3fc00000u, 0x7f7fffffu, 0x00000001u, 0xff800000u, 0x7fc00000u, 0xc2f6e979u };
+    uint32_t fbv = fb[r.below(8)];
+    float fv;
+    memcpy(&fv, &fbv, 4);
+    Color ev = (Color)(int)r.below(3);
+    unsigned short usv = (unsigned short)pick_int(r, 16, false);
+    g_callc_override = true;
+    g_callc_fp = r.chance(1, 3) ? 0 : (uint32_t)r.range(1, 30); // the guest hands over any function index it likes, or null
+    g_callc_l = (int32_t)pick_int(r, 32, true);
+    g_callc_returned = false;
+    unsigned long retv = (unsigned long)pick_int(r, 64, false);
+    if (r.chance(2, 3))
+      retv = (uint32_t)retv;
+    g_cbc_ret = retv;
+    g_cbc_log.clear();
+    bool ret_fits = retv <= 0xFFFFFFFFUL;
+    unsigned long got = 0;
+    size_t before = g_glog.size();
+    Outcome o = attempt([&] { got = m.sb->invoke_sandbox_function(f_callc, *m.cbc, cv, bv, llv, fv, ev, usv, nullptr, 0L).UNSAFE_unverified(); });
+    g_callc_override = false;
+    C->ev("callback_scalar_kinds ret_fits=%d -> %s", (int)ret_fits, oname(o));
+    C->probe("callback_with_every_scalar_kind");
+    if (g_glog.size() != before + 1 || g_glog.back().fn != FN_CALLC)
+      return; // the invocation itself went wrong: C11's business, reported by the other operations
+    if (g_cbc_log.size() != 1) {
+      C->violate("C12", "callback_not_run_exactly_once@callback_scalar_kinds", "%zu runs (%s)", g_cbc_log.size(), oname(o));
+      return;
+    }
+    const CbCRec& rec = g_cbc_log[0];
+    bool args_ok = rec.sandbox == m.sb.get() && rec.c == cv && rec.b == bv && rec.ll == llv && rec.fbits == fbv && rec.e == (int)ev && rec.us == usv &&
+                   rec.fp_rep == g_callc_fp && rec.fp_null == (g_callc_fp == 0) && rec.l == (long)g_callc_l;
+    if (!args_ok) {
+      C->violate("C12",
+                 rec.fp_null != (g_callc_fp == 0) || (g_callc_fp == 0 && rec.fp_rep != 0) ? "null_function_pointer_argument_not_preserved@callback_scalar_kinds" : "wrong_arguments@callback_scalar_kinds",
+                 "char %d/%d bool %d/%d long long %lld/%lld float %08x/%08x enum %d/%d ushort %u/%u fn %llu/%u long %ld/%d",
+                 rec.c, cv, (int)rec.b, (int)bv, rec.ll, llv, rec.fbits, fbv, rec.e, (int)ev, rec.us, usv, (unsigned long long)rec.fp_rep, g_callc_fp, rec.l, g_callc_l);
+      return;
+    }
+    if (!ret_fits) {
+      C->fired("F9_unrepresentable_callback_result");
+      if (o != ABORT || g_callc_returned)
+        C->violate("C12", "unrepresentable_result_not_refused@callback_scalar_kinds", "callback returned %lu: %s, guest received %u", retv, oname(o), g_callc_guest_got);
+      return;
+    }
+    if (o != OK || !g_callc_returned || g_callc_guest_got != (uint32_t)retv || got != (unsigned long)(uint32_t)retv)
+      C->violate("C12", "wrong_result_delivered_to_guest@callback_scalar_kinds", "callback returned %lu, guest received %u, application got %lu (%s)", retv, g_callc_guest_got, got, oname(o));
+  }
+
   void sim_create(SbxM& m, int lib)
   {
     Outcome o = attempt([&] { m.sb->create_sandbox(lib); });
@@ -888,6 +1115,7 @@ struct InvokeWorld : World
       m.buf = m.sb->malloc_in_sandbox<char>(64);
       m.ibuf = m.sb->malloc_in_sandbox<int>(4);
       m.cb = std::make_unique<rlbox::sandbox_callback<long (*)(long, unsigned), Sbx>>(m.sb->register_callback(app_cb));
+      m.cbc = std::make_unique<SbxM::CbC>(m.sb->register_callback(app_cbC));
     });
   }
 
@@ -981,6 +1209,10 @@ struct InvokeWorld : World
           if (m.created)
             op_byname(m, op);
           break;
+        case I_CBTYPES:
+          if (m.created)
+            op_cbtypes(m, op);
+          break;
         case A_ADDR: {
           if (!m.created)
             break;
@@ -998,6 +1230,7 @@ struct InvokeWorld : World
           if (!m.created)
             break;
           m.cb.reset();
+          m.cbc.reset();
           attempt([&] { m.sb->destroy_sandbox(); });
           m.created = false;
           c.fired("F12_destroy_instance");
@@ -1042,6 +1275,10 @@ struct InvokeWorld : World
           Outcome o = attempt([&] {
             got = d.sb->invoke_sandbox_function(g_add3, a, b, cc).UNSAFE_unverified();
             id = d.sb->invoke_sandbox_function(g_lib_id).UNSAFE_unverified();
+            // a call the library makes to one of its own exported functions stays inside that library
+            int id2 = d.sb->invoke_sandbox_function(g_lib_id_indirect).UNSAFE_unverified();
+            if (id2 != id)
+              id = 1000 + id2;
           });
           if (o != OK || id != d.lib || got != a + b + cc + 1000 * d.lib)
             c.violate("C11",
@@ -1095,6 +1332,7 @@ struct InvokeWorld : World
     }
     for (auto& m : S) {
       m.cb.reset();
+      m.cbc.reset();
       if (m.created)
         attempt([&] { m.sb->destroy_sandbox(); });
     }
